@@ -231,12 +231,7 @@ candidate (the same name imported from two crates): the result then depends on t
 def ambiguousImports (d : ParsedData) : List Str :=
   ((d.importTypes.filter fun i => i.typeName != s%"*").filterMap fun i =>
     if d.importTypes.any fun j => j.typeName == i.typeName && j.baseCrate != i.baseCrate
-    then some i.typeName else none).eraseDups ++
-  -- a glob import only *extends* an entry another import of the same crate created
-  -- (`and_modify` without `or_insert`), so the outcome depends on which is iterated first
-  ((d.importTypes.filter fun i => i.typeName == s%"*").filterMap fun g =>
-    if d.importTypes.any fun j => j.typeName != s%"*" && j.baseCrate == g.baseCrate
-    then some (g.baseCrate ++ s%"::*") else none)
+    then some i.typeName else none).eraseDups
 
 end Visitor
 end TsV
